@@ -28,7 +28,7 @@ def census(ex, entries, verbose=True):
                     r = ex.resolve_site(site)
                 except Exception as e:
                     bad['resolve %s: %s' % (site.raw[:60], e)] += 1; continue
-                if r[0] == 'body': work.append(r[1])
+                if r[0] in ('body', 'body_deref'): work.append(r[1])
                 elif r[0] == 'dyn': dyn[site.key] += 1
                 elif r[0] == 'model': models[site.key] += 1
                 else: missing[site.raw[:150]] += 1
